@@ -79,7 +79,8 @@ class FileSystemArtifactStore(SerializedArtifactStore):
         if not len(glob):
             raise ArtifactFileDoesNotExist(f'Artifact file for {node_id} does not exist')
 
-        serializer = serializer_factory.from_extension(glob[0].suffix[1:])
+        # The format is the part of the file name after the last dot (Path.suffix is empty for the id '')
+        serializer = serializer_factory.from_extension(glob[0].name.rsplit('.', 1)[-1])
         mode, encoding = ('rb', None) if serializer.is_binary else ('r', 'utf-8')
 
         with Path(glob[0]).open(mode, encoding=encoding) as file:  # noqa: ASYNC101
